@@ -68,3 +68,13 @@ claim("C08",
       "Every hostile-pool entry (alone, letter-prefixed, letter-suffixed) and random hostile strings up to 10^4 bytes are written between double quotes and as fully escaped bare words at 12 positions (f:v, bare, f:>=v, both range bounds, list element, under NOT/+/-, after AND, field group, field name); the tree leaf, the constant PostgreSQL decodes from the inline SQL at that position and the parameter at the expected index must each equal the value byte for byte.",
       "Single-quoted phrases and values containing '\"' (quote clause) or numeric / keyword-looking values (escape clause) are outside the property. One open finding (F15: \"*\" as a range boundary) is excluded by signature and announced.",
       "DESIGN.md section 4, C08")
+claim("C03",
+      "exhaustive + rapid fragment trees x probe rows; query-meaning evaluator vs evaluator over PostgreSQL's AST of the rendered SQL",
+      "Queries of the filterable fragment over 1-4 typed fields (all leaf forms x bound kinds x inclusivity, AND/OR/NOT/+/-/parentheses, depth <= 5; every depth <= 1 tree (thorough: <= 2) over one leaf per form) must render; the rendered text is parsed by libpg_query, whitelisted, and evaluated on probe rows that hit every region cut out by the query's constants (c, c+-1, midpoints, c+-0.005/0.0005, string neighbours, pattern instantiations and near misses); the truth value must equal the query's meaning, written from the property text. Four open findings (F16-F19) and F15 are excluded by leaf signature, counted and announced.",
+      "Finite probing decides the query because both sides are Boolean combinations of threshold / equality / pattern atoms over the probed constants (patterns are probed, not decided). NULLs and collations are outside the property.",
+      "DESIGN.md section 4, C03")
+claim("C04",
+      "exhaustive + rapid renderable trees with a same-kind value re-assignment; differential inline vs parameterized through PostgreSQL's grammar",
+      "For every renderable generated query (all leaf forms incl. bare terms, regexps of every length, one-character patterns, quoted *, open and mixed-type ranges, mixed lists; default field on/off): parameterized rendering succeeds whenever inline does; placeholders == parameters; the parameter list is the generator's left-to-right value list with Go kinds; inline SQL and parameter-substituted SQL have the same normal form or agree on all probe rows; re-assigning values of the same kinds leaves the SQL text byte-identical.",
+      "The expected parameter list comes from the print plan, not from the parser. F15 (\"*\" as a range boundary) is excluded by signature.",
+      "DESIGN.md section 4, C04")
